@@ -920,7 +920,21 @@ func TestC17(t *testing.T) {
 		if i%10 == 4 {
 			// the dead-letter topic is deleted and made again under its name: subscriptions that named it now
 			// name a deleted topic, until an update names the (new) topic again
-			reqs = append(reqs, Rpc{Kind: "deleteTopic", Name: D}, Rpc{Kind: "createTopic", Name: D})
+			reqs = append(reqs, Rpc{Kind: "deleteTopic", Name: D})
+			// ... and while the deleted topic's row is still stored, and after the maintenance job for deleted
+			// topics has run, a subscription naming it keeps the configuration it was given
+			for _, j := range []int{i, i - 1} {
+				if j >= 0 {
+					reqs = append(reqs, Rpc{Kind: "getSub", Name: fmt.Sprintf("projects/p/subscriptions/s%d", j)})
+				}
+			}
+			reqs = append(reqs, Rpc{Kind: "op", Op: &Op{K: "prune_deleted_topics", Max: 10}}, Rpc{Kind: "op", Op: &Op{K: "prune_deleted_topics", Max: 10}})
+			for _, j := range []int{i, i - 1} {
+				if j >= 0 {
+					reqs = append(reqs, Rpc{Kind: "getSub", Name: fmt.Sprintf("projects/p/subscriptions/s%d", j)})
+				}
+			}
+			reqs = append(reqs, Rpc{Kind: "createTopic", Name: D})
 			for _, j := range []int{i, i - 1, i - 2} {
 				if j < 0 {
 					continue
